@@ -72,7 +72,7 @@ Definition run_aop (w : aworld) (o : aop) : MA value :=
   | ADrop hu => drop hu ;;; ret VU
   | AGc => lift (collect_garbage None) ;;; ret VU
   | AReorder order =>
-      lift (reorder ((fun l => list_to_map (reverse l)) <$> order)) ;;; ret VU
+      lift (reorder_pub ((fun l => list_to_map (reverse l)) <$> order)) ;;; ret VU
   | AConfigure b => r <- lift (configure b) ;; ret (VB r)
   | ASetLastLen l => lift (modify (fun s => s <| last_len := l |>)) ;;; ret VU
   | ASetTrig k => lift (modify (fun s => s <| trig := k |>)) ;;; ret VU
